@@ -88,6 +88,9 @@ pub use reader::Mp4Reader;
 mod writer;
 pub use writer::{Mp4Config, Mp4Writer};
 
+#[cfg(mp4_verif)]
+pub mod verif_hooks;
+
 pub fn read_mp4(f: File) -> Result<Mp4Reader<BufReader<File>>> {
     let size = f.metadata()?.len();
     let reader = BufReader::new(f);
